@@ -253,6 +253,10 @@ enum Kind {
     MultiLayer,
     DiskFlat,
     DiskSubdirs,
+    /// DiskCache (flat) whose pre-population was written by an EARLIER instance on the same directory: the instance
+    /// under test starts with an empty index over existing files, so the first get of a key takes the adopt-the-file
+    /// path (read the file, then take it into the index) concurrently with remove / clear / put
+    DiskReopened,
     ProtocolMemory,
     ProtocolDisk,
     /// ProtocolCache called from inside a tokio runtime (what the async clients do): every operation is shipped
@@ -282,6 +286,7 @@ impl Kind {
             Kind::MultiLayer => "MultiLayerCacheImpl",
             Kind::DiskFlat => "DiskCache",
             Kind::DiskSubdirs => "DiskCache(subdirs)",
+            Kind::DiskReopened => "DiskCache(reopened-over-existing-files)",
             Kind::ProtocolMemory => "ProtocolCache(memory)",
             Kind::ProtocolDisk => "ProtocolCache(disk)",
             Kind::ProtocolMemoryInRuntime => "ProtocolCache(memory,in-runtime)",
@@ -296,7 +301,7 @@ impl Kind {
             Kind::MemoryTtlPolicy => "MemoryCache(ttl-policy)",
             Kind::Dynamic | Kind::DynamicLru => "DynamicContainer",
             Kind::MultiLayer => "MultiLayerCacheImpl",
-            Kind::DiskFlat | Kind::DiskSubdirs | Kind::DiskCleanupTask => "DiskCache",
+            Kind::DiskFlat | Kind::DiskSubdirs | Kind::DiskCleanupTask | Kind::DiskReopened => "DiskCache",
             Kind::ProtocolMemory | Kind::ProtocolMemoryInRuntime => "ProtocolCache(memory)",
             Kind::ProtocolDisk | Kind::ProtocolDiskInRuntime => "ProtocolCache(disk)",
         }
@@ -320,6 +325,7 @@ impl Kind {
             Kind::MultiLayer,
             Kind::DiskFlat,
             Kind::DiskSubdirs,
+            Kind::DiskReopened,
             Kind::ProtocolMemory,
             Kind::ProtocolDisk,
             Kind::ProtocolMemoryInRuntime,
@@ -678,7 +684,7 @@ fn build(kind: Kind) -> Result<Built, String> {
             }
             Ok(Built { subject: Arc::new(AsyncSubject { cache: Arc::new(c), reports_bytes: false, plain_put: true }), _dir: None, sync_only: false, _rt: Some(rt) })
         }
-        Kind::DiskFlat | Kind::DiskSubdirs => {
+        Kind::DiskFlat | Kind::DiskSubdirs | Kind::DiskReopened => {
             let dir = scratch_dir()?;
             let cfg = DiskCacheConfig::new(dir.path())
                 .with_max_files(100_000)
@@ -776,6 +782,27 @@ fn gen_workload(rng: &mut Rng, kind: Kind, max_ops: usize) -> Workload {
             ops.push(op);
         }
         tasks.push(ops);
+    }
+    if kind == Kind::DiskReopened {
+        // the earlier instance leaves live files behind (a time-to-live does not survive the instance: C10's subject)
+        for op in &mut prepop {
+            if let OpSpec::PutTtl0(k, id) = *op {
+                *op = OpSpec::Put(k, id);
+            }
+        }
+        if prepop.is_empty() {
+            prepop.push(OpSpec::Put(0, 900_001));
+        }
+        // `contains` consults the index only: for a file an earlier instance left behind it says false until the first
+        // get adopts the file. That is a (sequential) question about contains on a re-created cache — C10 records it as an
+        // observation, the statements make no claim about it — so this kind asks with get instead
+        for ops in &mut tasks {
+            for op in ops.iter_mut() {
+                if let OpSpec::Contains(k) = *op {
+                    *op = OpSpec::Get(k);
+                }
+            }
+        }
     }
     if matches!(kind, Kind::Dynamic | Kind::DynamicLru) {
         // content-addressed store: one fixed value per key, no expiry, no clear (an index flush instead)
@@ -882,6 +909,21 @@ fn execute(w: &Workload, mode: Mode) -> Result<Execution, String> {
         let ret = clock.fetch_add(1, Ordering::SeqCst);
         log.lock().unwrap_or_else(std::sync::PoisonError::into_inner).push(Rec { task: 255, call, ret, done: Done { spec: *op, res } });
     }
+
+    // the instance that wrote the pre-population goes away; a new one over the same directory is the subject
+    let (built, subject) = if w.kind == Kind::DiskReopened {
+        let dir = built._dir.ok_or("harness: reopened kind without a directory")?;
+        drop(subject);
+        drop(built.subject);
+        let cfg = DiskCacheConfig::new(dir.path()).with_max_files(100_000).with_subdirectories(false, 0);
+        let c: DiskCache<SKey> = DiskCache::new(cfg).map_err(|e| e.to_string())?;
+        let b = Built { subject: Arc::new(AsyncSubject { cache: Arc::new(c), reports_bytes: true, plain_put: false }), _dir: Some(dir), sync_only: false, _rt: None };
+        let s2 = Arc::clone(&b.subject);
+        (b, s2)
+    } else {
+        (built, subject)
+    };
+    let _keep = &built;
 
     let mut closures: Vec<Box<dyn FnOnce() + Send>> = Vec::new();
     for (t, ops) in w.tasks.iter().enumerate() {
@@ -1267,6 +1309,9 @@ fn main() {
         // put on a second key so that one task's eviction pass can meet the other task's fresh entry
         let with_warm_put: [u8; 7] = [0, 1, 2, 3, 4, 5, 6];
         two.extend(systematic_workloads(&[Kind::MemoryTtlPolicy], 2, &with_warm_put));
+        // reopened over existing files: only the pre-populated workloads are of interest (the file to adopt must exist)
+        let no_contains: [u8; 5] = [0, 2, 3, 4, 5];
+        two.extend(systematic_workloads(&[Kind::DiskReopened], 2, &no_contains).into_iter().filter(|w| matches!(w.prepop.first(), Some(OpSpec::Put(_, _)))));
         ctx.obs("systematic.two_tasks.workloads", two.len() as u64);
         systematic(&ctx, two, "two_tasks", 20_000, Duration::from_secs(ctx.pick(40, 120)));
         if !ctx.quick() {
@@ -1301,7 +1346,8 @@ fn main() {
                         0..=5 => Kind::Memory,
                         6 => Kind::MemoryTtlPolicy,
                         7..=9 => Kind::MemoryEvicting(rng.below(8) as u8),
-                        10..=12 => Kind::DiskFlat,
+                        10 | 11 => Kind::DiskFlat,
+                        12 => Kind::DiskReopened,
                         13 => Kind::DiskSubdirs,
                         14 | 15 => Kind::ProtocolMemory,
                         16 => Kind::ProtocolDisk,
@@ -1401,7 +1447,8 @@ fn main() {
                         6 => Kind::MemoryTtlPolicy,
                         7 => Kind::MemoryCleanupTask,
                         8..=10 => Kind::MemoryEvicting(rng.below(8) as u8),
-                        11..=13 => Kind::DiskFlat,
+                        11 | 12 => Kind::DiskFlat,
+                        13 => Kind::DiskReopened,
                         14 => Kind::DiskCleanupTask,
                         15 => Kind::DiskSubdirs,
                         16 => Kind::ProtocolMemory,
